@@ -1,0 +1,6 @@
+//go:build !verif
+
+package generator
+
+// verifPoint is a no-op unless built with -tags verif (verification trace points).
+func verifPoint(kind string, job int) {}
